@@ -1,6 +1,7 @@
 """C11 — FTP clients cannot reach outside the service's filesystem root.
-Spec: FtpFs.tla (+ MC_FtpFs)."""
-import json, os
+Spec: FtpPath.tla, FtpFs.tla (+ MC_FtpFs: one path at a time on Htfs), FtpSession.tla (+ MC_FtpSession: command sequences
+on the running service, process under strace)."""
+import json, os, re, subprocess, hashlib
 import lib
 
 PROP = "C11"
@@ -35,21 +36,208 @@ def level1(ck, tier, lab):
     return res["transitions"]
 
 
+# ---------------------------------------------------------------- level 2: command sequences on the running service
+
+def path_text(p):
+    return ("/" if p["abs"] else "") + "/".join(p["comps"])
+
+
+def outside_snapshot(top, root):
+    """(path -> digest) of everything below the jail top that is not below the service's root"""
+    snap = {}
+    for d, dirs, files in os.walk(top):
+        if d == root or d.startswith(root + "/"):
+            dirs[:] = []
+            continue
+        dirs[:] = [x for x in dirs if os.path.join(d, x) != root]
+        snap[d] = "dir"
+        for f in files:
+            p = os.path.join(d, f)
+            try:
+                st = os.stat(p)
+                snap[p] = "%s:%d:%d" % (hashlib.md5(open(p, "rb").read()).hexdigest(), st.st_size, int(st.st_mtime))
+            except OSError as e:
+                snap[p] = "unreadable:%s" % e
+    return snap
+
+
+def make_jail(top):
+    """look-alike directories (a, b, n) and sentinel files (f) at every level between the jail top and the service's root"""
+    base = os.path.join(top, "j2", "jail", "base")
+    os.makedirs(os.path.join(base, "ftp"))
+    levels = [top, os.path.join(top, "j2"), os.path.join(top, "j2", "jail"), base, os.path.join(base, "ftp")]
+    old = 978307200   # 2001-01-01
+    for i, lv in enumerate(levels):
+        for d in ("a", "b", "n"):
+            os.makedirs(os.path.join(lv, d, "a"), exist_ok=True)
+            p = os.path.join(lv, d, "f")
+            open(p, "w").write("OUTSIDE" * 1111)
+            os.utime(p, (old, old))
+        p = os.path.join(lv, "f")
+        open(p, "w").write(("OUTSID%d" % i) * 1111)
+        os.utime(p, (old, old))
+
+
+_sys_re = re.compile(r'^(\d+)\s+(\w+)\((.*)$')
+_str_re = re.compile(r'"((?:[^"\\]|\\.)*)"')
+
+
+def parse_strace(path, top, root):
+    """-> {(scenario, step): [(syscall, path)]} for path arguments below `top` but not below `root`, after the first marker"""
+    cur = None
+    bad = {}
+    touched = {}
+    for ln in open(path, errors="replace"):
+        m = _sys_re.match(ln)
+        if not m:
+            continue
+        call, rest = m.group(2), m.group(3)
+        for s in _str_re.findall(rest):
+            if s.startswith("/verif-mark/"):
+                parts = s.split("/")
+                cur = (int(parts[2]), parts[3])
+                continue
+            if cur is None or cur[1] == "end" or not s.startswith("/"):
+                continue
+            q = os.path.normpath(s)
+            if q == top or q.startswith(top + "/"):
+                if q == root or q.startswith(root + "/"):
+                    touched.setdefault(cur, set()).add(q[len(root):] or "/")
+                else:
+                    bad.setdefault(cur, []).append((call, s))
+    return bad, touched
+
+
+def level2(ck, tier, lab):
+    rd = lib.tlc("MC_FtpSession", timeout=300, constants={"Sim": "FALSE", "MaxLen": "2", "Devs": '{"dotdot_not_clamped"}'}, want_scn=False)
+    if rd.violated != "Inv":
+        raise lib.Infra("deviation dotdot_not_clamped does not violate Contained in FtpSession")
+    r0 = lib.tlc("MC_FtpSession", timeout=600, constants={"Sim": "FALSE", "MaxLen": "2" if tier == "quick" else "3", "Devs": "{}"}, want_scn=False)
+    lib.tlc_must_pass(r0, "FtpSession design (Contained, CwdInside, TreeClosed, NoClash, TreeInside)")
+    ck.add_tlc(r0, "FtpSession: 15 commands x 40 short paths over {a,f,n,..}, every sequence of <= %s commands, exhaustive" % ("2" if tier == "quick" else "3"))
+    n = 160 if tier == "quick" else 4000
+    r = lib.tlc("MC_FtpSession", timeout=900, constants={"Sim": "TRUE", "MaxLen": "6" if tier == "quick" else "8", "Devs": "{}"},
+                simulate=max(1, n // 8), depth=12, tlc_seed=lib.seed(), workers=8)
+    lib.tlc_must_pass(r, "FtpSession generation")
+    ck.add_tlc(r, "FtpSession: random command sequences, paths of 1..4 components over {a,b,f,n,..,.,''} (-simulate)")
+    scs = [{"id": i, "steps": s["steps"]} for i, s in enumerate(r.scn)]
+    return run_sessions(ck, lab, scs)
+
+
+def run_sessions(ck, lab, scs):
+    top = os.path.join(lib.scratch(), "c11top")
+    os.makedirs(top)
+    make_jail(top)
+    before = outside_snapshot(top, "\0")
+    inp, out, trace = (os.path.join(lib.scratch(), x) for x in ("c11s-in.ndjson", "c11s-out.ndjson", "c11s-strace.txt"))
+    lib.write_ndjson(inp, [{"id": s["id"], "steps": [{"c": st["c"], "p": st["p"], "chunk": st["chunk"]} for st in s["steps"]]} for s in scs])
+    env = dict(os.environ, VERIF_SCRATCH=lib.scratch())
+    p = subprocess.run(["strace", "-f", "-qq", "-e", "trace=file", "-s", "4096", "-o", trace, lab, "c11session", "-in", inp, "-out", out, "-top", top],
+                       env=env, stdout=subprocess.PIPE, stderr=subprocess.PIPE, timeout=3000)
+    if p.returncode != 0 or not os.path.exists(out):
+        raise lib.Infra("lab c11session under strace rc=%d: %s" % (p.returncode, p.stderr.decode("utf8", "replace")[-1500:]))
+    rows = lib.read_ndjson(out)
+    root = rows[0]["root"]
+    results = {x["id"]: x for x in rows[1:]}
+    after = outside_snapshot(top, root)
+    changed = sorted(k for k in set(before) | set(after) if before.get(k) != after.get(k) and k != root)
+    if changed:
+        ck.disagree("ftp/outside-tree-changed", "after %d sessions the tree beside the root differs: %s" % (len(scs), changed[:6]),
+                    {"level": 2, "changed": changed[:20]})
+    bad, touched = parse_strace(trace, top, root)
+    if not touched:
+        raise lib.Infra("the syscall trace attributes no path below the root to any command (markers missing?)")
+    # (1) every path the process touched while a command ran lies below the root
+    byid = {s["id"]: s for s in scs}
+    for (sid, step), calls in sorted(bad.items())[:50]:
+        sc = byid[sid]
+        k = int(step)
+        hist = [(st["c"], path_text(st["p"])) for st in sc["steps"][:k + 1]]
+        ck.disagree("ftp/escape/%s" % sc["steps"][k]["c"], "commands %s: syscall %s(%s) outside the root %s" % (hist, calls[0][0], calls[0][1], root),
+                    {"level": 2, "steps": sc["steps"][:k + 1], "syscalls": calls[:5]})
+    drift = {}
+    nsteps = 0
+    for sc in scs:
+        res = results.get(sc["id"])
+        if res is None or res.get("error"):
+            raise lib.Infra("session scenario %s: %s" % (sc["id"], res and res.get("error")))
+        for k, (st, ob) in enumerate(zip(sc["steps"], res["obs"])):
+            nsteps += 1
+            hist = [(x["c"], path_text(x["p"])) for x in sc["steps"][:k + 1]]
+            rp = {"level": 2, "steps": sc["steps"][:k + 1], "observed": ob}
+            exp = st["exp"]
+            # (2) nothing that comes back was read outside
+            blob = (ob.get("data") or "") + " " + (ob.get("text") or "")
+            if "OUTSID" in blob or (st["c"] == "SIZE" and ob["codes"][:1] == [213] and ob["text"].strip() == "7777") or \
+                    (st["c"] == "MDTM" and ob["codes"][:1] == [213] and ob["text"].startswith("2001")):
+                ck.disagree("ftp/outside-content/%s" % st["c"], "commands %s: the reply carries data of a file outside the root: %r" % (hist, blob[:80]), rp)
+            # (3) the working directory reported to the client
+            if st["c"] in ("PWD", "CWD", "CDUP") and ob["codes"] and ob["codes"][0] in (250, 257):
+                m = re.search(r'(/\S*)', ob["text"])
+                shown = m.group(1).rstrip('"') if m else None
+                want = "/" + "/".join(exp["cwd"])
+                if shown is None or ".." in shown.split("/") or not shown.startswith("/"):
+                    ck.disagree("ftp/reported-cwd-outside", "commands %s: working directory reported as %r" % (hist, ob["text"]), rp)
+                elif os.path.normpath(shown) != want:
+                    drift.setdefault("reported working directory differs from FtpSession (still inside)", []).append((hist, shown, want))
+            # strict comparison with the specification: reply class and the tree below the root
+            ok_real = bool(ob["codes"]) and all(c < 400 for c in ob["codes"][-1:])
+            if st["c"] not in ("MDTM", "RETR", "LIST", "NLST") and ok_real != exp["ok"]:
+                drift.setdefault("%s: reply class differs" % st["c"], []).append((hist, ob["codes"], exp["ok"]))
+            want_dirs = sorted("/".join(d) for d in exp["dirs"] if d)
+            want_files = {"/".join(eval_loc(kf)): "".join(c + ";" for c in v) for kf, v in exp["files"].items()}
+            if ob["dirs"] != want_dirs or ob["files"] != want_files:
+                drift.setdefault("%s: tree below the root differs" % st["c"], []).append((hist, ob["dirs"], ob["files"], want_dirs, want_files))
+                break       # later steps of this scenario start from a different tree
+            if st["c"] == "RETR" and ob["codes"][:1] == [150] and (ob.get("data") or "") != "".join(c + ";" for c in exp["content"]):
+                drift.setdefault("RETR: bytes returned differ from the file's content", []).append((hist, ob.get("data"), exp["content"]))
+            if st["c"] in ("LIST", "NLST") and ob["codes"][:1] == [150]:
+                names = sorted(x.split()[-1] for x in (ob.get("data") or "").splitlines() if x.strip())
+                if names != sorted(exp["names"]):
+                    drift.setdefault("%s: names listed differ" % st["c"], []).append((hist, names, exp["names"]))
+    for what, items in sorted(drift.items()):
+        ck.notes.append("MODEL-DRIFT level 2 (%d times): %s, e.g. %s" % (len(items), what, json.dumps(items[0])[:400]))
+    if drift:
+        print("MODEL-DRIFT C11: %d kinds of disagreement with FtpSession.tla that stay inside the root (see evidence notes)" % len(drift))
+    ck.cov["level2"] = {"sessions": len(scs), "commands": nsteps, "commands_with_paths_below_root_in_trace": len(touched),
+                        "syscall_windows_with_outside_paths": len(bad), "drift_kinds": len(drift)}
+    return top, root, len(scs), nsteps
+
+
+def eval_loc(key):
+    """TLC prints a function whose domain is a set of sequences with keys like <<"a", "f">>"""
+    return re.findall(r'"([^"]*)"', key)
+
+
+def level2_guarded(ck, tier, lab):
+    """sentinel tree beside the root: digested before the sessions (after the service has made its root) and after"""
+    top, root, nsess, ncmd = level2(ck, tier, lab)
+    return top, root, nsess, ncmd
+
+
 def run(tier, lab):
     ck = lib.Check(PROP, tier, "model_checking")
     n1 = level1(ck, tier, lab)
+    top, root, nsess, ncmd = level2_guarded(ck, tier, lab)
     ck.cov.update({
         "traces_validated_against_impl": n1, "htfs_transitions_tested": n1, "evaluations": n1, "distinct_nontrivial": n1,
         "exhaustive": True,
         "rule": "level 1: every (working directory, path) transition of FtpFs.tla is one test on the real Htfs "
                 "(RealPath + ChangeDir + Cwd) over a real tree with look-alike directories outside the root",
     })
-    ck.assumptions += ["no symlinks inside the root (as the property states)"]
+    ck.cov["traces_validated_against_impl"] = n1 + nsess
+    ck.cov["evaluations"] = n1 + ncmd
+    ck.cov["rule"] += "; level 2: command sequences from FtpSession.tla on the real service in the real server, process under strace"
+    ck.assumptions += ["no symlinks inside the root (as the property states)",
+                       "level 2 attributes path-taking syscalls to commands by marker syscalls issued by the driver between commands "
+                       "(sessions run one at a time); the sentinel tree beside the root is digested before and after"]
     return ck.finish()
 
 
 def replay(lab, path):
     rp = json.load(open(path))["replay"]
+    if rp.get("level") == 2:
+        return replay2(lab, path, rp)
     table = os.path.join(lib.scratch(), "c11-table.ndjson")
     lib.write_ndjson(table, [rp["trans"]])
     out = os.path.join(lib.scratch(), "c11-out.json")
@@ -57,6 +245,18 @@ def replay(lab, path):
     res = lib.read_ndjson(out)[0]
     print(json.dumps(res, indent=1))
     if any(m["kind"] in ("escape", "setup") for m in res["mismatches"] or []):
+        print("VIOLATION property=C11 replay=%s" % path)
+        return 1
+    return 0
+
+
+def replay2(lab, path, rp):
+    ck = lib.Check(PROP, "quick", "model_checking")
+    ck.findings.entries = []
+    run_sessions(ck, lab, [{"id": 0, "steps": rp["steps"]}])
+    for sig, p, what in ck.violations:
+        print(sig, what[:400])
+    if ck.violations:
         print("VIOLATION property=C11 replay=%s" % path)
         return 1
     return 0
